@@ -91,30 +91,27 @@ theorem compactRows_ok (K : Bytes → Bool) (s : NvStore) (hwf : WFParts s) (row
     have hdok := hwf.ok _ (row_entry_mem s d hdm)
     have hfitd := hfit d (by simp) _ hh
     -- the pieces of `ok` that come from the kept entry
-    have hd2 : (d.entry.content.take 4 != Spec.sig) = true ∧
-        ∃ dataOnly, okExt d.entry.flags dataOnly d.entry.ext = true := by
+    have hd2 : ∃ dataOnly, okExt d.entry.flags dataOnly d.entry.ext = true := by
       cases he : d.entry with
       | dead a nx b => exact absurd he (hnd a nx b)
       | var f g' n' v x nx =>
         rw [he] at hdok
         simp only [Entry.ok, Bool.and_eq_true] at hdok
-        exact ⟨hdok.1.2, false, hdok.2.1.2⟩
+        exact ⟨false, hdok.2.1.2⟩
       | data f v x nx =>
         rw [he] at hdok
         simp only [Entry.ok, Bool.and_eq_true] at hdok
-        exact ⟨hdok.1.2, true, hdok.2.1.2⟩
-    obtain ⟨hsig, dataOnly, hext⟩ := hd2
+        exact ⟨true, hdok.2.1.2⟩
+    obtain ⟨dataOnly, hext⟩ := hd2
     have hnew : ∀ (g' : GuidRef) (N : Nat), g'.ser.length = g.ser.length → okGuid N g' = true →
         (Entry.var (mergeFlags fh d.entry.flags) g' n d.entry.value d.entry.ext none).ok N = true := by
       intro g' N hgl hgN
       simp only [Entry.ok, Bool.and_eq_true, decide_eq_true_eq]
-      refine ⟨⟨?_, ?_⟩, ⟨⟨⟨⟨okFlags_merge _ _, hgN⟩, hnok⟩, okExt_merge _ _ _ _ hext⟩, rfl⟩⟩
-      · simp only [headLen] at hfitd
-        simp only [Entry.size, Entry.body, List.length_append, hgl]
-        rw [content_eq_value_ext _ hnd, List.length_append] at hfitd
-        omega
-      · simp only [Entry.content]
-        rw [← content_eq_value_ext _ hnd]; exact hsig
+      refine ⟨?_, ⟨⟨⟨⟨okFlags_merge _ _, hgN⟩, hnok⟩, okExt_merge _ _ _ _ hext⟩, rfl⟩⟩
+      simp only [headLen] at hfitd
+      simp only [Entry.size, Entry.body, List.length_append, hgl]
+      rw [content_eq_value_ext _ hnd, List.length_append] at hfitd
+      omega
     cases g with
     | inline gb =>
       have hcr : compactRows s.guids (d :: rows) gs
@@ -226,29 +223,36 @@ theorem compactG_wf (K : Bytes → Bool) (s : NvStore) (hwf : WFParts s) (hl : L
   simp only [compactG, keptRows] at *
   omega
 
-/-- **main lemma**: the model's compaction of the parsed store (with the names selected by `K`
-    invalidated) is the parsed form of the grammar-level compaction -/
-theorem compactWith_expect (K : Bytes → Bool) (s : NvStore) (hwf : WFParts s) (hl : Links s)
-    (hfit : fitsOk s = true) (recC : Store → Except Err Store) :
-    compactWith s.pol recC (invalK K (expectStore s)) = .ok (expectStore (compactG K s)) := by
+/-- `compactNVarStore` proper: the two loops, the final check-only assemble and the store layout,
+    on entries that travel with the compacted bytes of their nested stores -/
+def compactCore (pol : Nat) (pairs : List (NVar × Option Bytes)) (s : Store) : Except Err Store :=
+  let p1 := pass1 pairs [] []
+  match pass2 pol p1.1 p1.2 0 [] with
+  | .error e => .error e
+  | .ok (new, gs) =>
+    match finalCheck pol new with
+    | .error e => .error e
+    | .ok es => layout pol { s with guidStore := gs } es
+
+theorem compactWith_eq (pol : Nat) (recC : Store → Except Err Store) (s : Store) :
+    compactWith pol recC s = (match nestedCompact pol recC s.entries with
+      | .error e => .error e
+      | .ok pairs => compactCore pol pairs s) := rfl
+
+theorem invalK_entries (K : Bytes → Bool) (s : NvStore) :
+    (invalK K (expectStore s)).entries = (table s).map (fun d => markK K (expectNVar s.pol s.guids d)) := by
+  simp [invalK, expectStore, List.map_map, Function.comp_def]
+
+/-- the two loops and the final check on the parsed store (with the names selected by `K`
+    invalidated), nested stores left alone: the new GUID table is the one of the grammar-level
+    compaction, the new entries are its parsed entries -/
+theorem compactCore_parts (K : Bytes → Bool) (s : NvStore) (hwf : WFParts s) (hl : Links s)
+    (hfit : fitsOk s = true) :
+    ∃ new, pass2 s.pol (pass1 ((table s).map (pairOf K s.pol s.guids)) [] []).1
+        (pass1 ((table s).map (pairOf K s.pol s.guids)) [] []).2 0 [] = .ok (new, (compactG K s).guids) ∧
+      finalCheck s.pol new = .ok (expectStore (compactG K s)).entries := by
   have hfacts := keptRows_facts K s
   obtain ⟨hparts, hlenEq, hroom⟩ := compactG_wf K s hwf hl hfit
-  unfold compactWith
-  -- nested stores: none
-  have hent : (invalK K (expectStore s)).entries = (table s).map (fun d => markK K (expectNVar s.pol s.guids d)) := by
-    simp [invalK, expectStore, List.map_map, Function.comp_def]
-  have hnest : ∀ v ∈ (invalK K (expectStore s)).entries, nestedOf s.pol v = none := by
-    rw [hent]
-    intro v hv
-    obtain ⟨d, hd, hdv⟩ := List.mem_map.1 hv
-    subst hdv
-    rw [markK_nested]
-    exact nestedOf_expect s.pol s.guids d (hwf.ok _ (row_entry_mem s d hd))
-  rw [nestedCompact_none s.pol recC _ hnest, hent, List.map_map]
-  have hpairs : (fun v => (v, (none : Option Bytes))) ∘ (fun d => markK K (expectNVar s.pol s.guids d))
-      = pairOf K s.pol s.guids := by funext d; rfl
-  rw [hpairs]
-  simp only
   -- first loop
   have hinv := pass1_inv K s hl s.entries [] 0 [] [] (by rw [List.nil_append, ← table_eq_rowsFrom])
     (by simp) (by simp) (inv_nil K s.pol s.guids)
@@ -260,45 +264,60 @@ theorem compactWith_expect (K : Bytes → Bool) (s : NvStore) (hwf : WFParts s) 
     (fun d hd => hinv.terms d (hfacts d hd).mem (hfacts d hd).kept)
     (fun d hd => fits_rows s hfit d (hfacts d hd).mem)
     (by have := hparts.n255; simpa [compactG, keptRows] using this)
-  rw [hinv.keepEq]
-  have hk : List.filter (kept K s.guids) (table s) = keptRows K s := rfl
-  rw [hk, hp2]
+  refine ⟨new, ?_, ?_⟩
+  · rw [hinv.keepEq]
+    exact hp2
+  · rw [hfc]
+    have hcs_entries : (compactG K s).entries = (compactRows s.guids (keptRows K s) []).1 := rfl
+    have hcs_guids : (compactG K s).guids = (compactRows s.guids (keptRows K s) []).2 := rfl
+    rw [← hcs_entries, ← hcs_guids]
+    have htab : table (compactG K s) = varRows (compactG K s).entries 0 := by
+      rw [table_eq_rowsFrom]
+      exact rowsFrom_allvar _ (by rw [hcs_entries]; exact compactRows_allvar _ _ _) [] 0
+    simp only [expectStore, htab]
+    rfl
+
+/-- **main lemma**: the model's compaction of the parsed store (with the names selected by `K`
+    invalidated), nested stores left alone, is the parsed form of the grammar-level compaction -/
+theorem compactCore_expect (K : Bytes → Bool) (s : NvStore) (hwf : WFParts s) (hl : Links s)
+    (hfit : fitsOk s = true) :
+    compactCore s.pol ((table s).map (pairOf K s.pol s.guids)) (invalK K (expectStore s))
+      = .ok (expectStore (compactG K s)) := by
+  obtain ⟨hparts, hlenEq, hroom⟩ := compactG_wf K s hwf hl hfit
+  obtain ⟨new, hp2, hfc⟩ := compactCore_parts K s hwf hl hfit
+  unfold compactCore
+  simp only
+  rw [hp2]
   simp only
   rw [hfc]
   simp only
-  -- layout
-  have hcs_entries : (compactG K s).entries = (compactRows s.guids (keptRows K s) []).1 := rfl
-  have hcs_guids : (compactG K s).guids = (compactRows s.guids (keptRows K s) []).2 := rfl
-  rw [← hcs_entries, ← hcs_guids]
-  have htab : table (compactG K s) = varRows (compactG K s).entries 0 := by
-    rw [table_eq_rowsFrom]
-    exact rowsFrom_allvar _ (by rw [hcs_entries]; exact compactRows_allvar _ _ _) [] 0
-  have hbufs : ((varRows (compactG K s).entries 0).map (expectNVar s.pol (compactG K s).guids)).flatMap (·.buf)
-      = (compactG K s).entries.flatMap (Entry.ser s.pol) := by
-    rw [← htab]
-    exact expect_bufs (compactG K s)
-  unfold layout
-  simp only [hbufs, entriesLen_ser]
-  have hlen0 : (invalK K (expectStore s)).length = s.ser.length := rfl
-  simp only [hlen0]
-  have hnp : ¬ (s.ser.length < 16 * (compactG K s).guids.length) := by omega
-  have hnp' : ¬ (s.ser.length - 16 * (compactG K s).guids.length < entriesLen (compactG K s).entries) := by omega
-  simp only [hnp, hnp', if_false]
-  have hfree : s.ser.length - 16 * (compactG K s).guids.length - entriesLen (compactG K s).entries
-      = (compactG K s).free := by
-    simp only [compactG]; omega
-  rw [hfree]
-  simp only [expectStore, htab, invalK]
   have hpolc : (compactG K s).pol = s.pol := rfl
-  have hgso : s.ser.length - 16 * (compactG K s).guids.length
-      = entriesLen (compactG K s).entries + (compactG K s).free := by omega
-  rw [hpolc, hgso, hlenEq]
-  rfl
+  rw [← hpolc]
+  exact layout_expect (compactG K s) hparts _ rfl (by simp only [invalK, expectStore]; exact hlenEq.symm)
+
+/-- the same with `compactWith`, for a store without nested stores -/
+theorem compactWith_expect (K : Bytes → Bool) (s : NvStore) (hwf : WFParts s) (hl : Links s)
+    (hfit : fitsOk s = true) (hpl : ∀ e ∈ s.entries, e.plain = true) (recC : Store → Except Err Store) :
+    compactWith s.pol recC (invalK K (expectStore s)) = .ok (expectStore (compactG K s)) := by
+  rw [compactWith_eq]
+  have hent := invalK_entries K s
+  have hnest : ∀ v ∈ (invalK K (expectStore s)).entries, nestedOf s.pol v = none := by
+    rw [hent]
+    intro v hv
+    obtain ⟨d, hd, hdv⟩ := List.mem_map.1 hv
+    subst hdv
+    rw [markK_nested]
+    exact nestedOf_expect s.pol s.guids d (hpl _ (row_entry_mem s d hd))
+  rw [nestedCompact_none s.pol recC _ hnest, hent, List.map_map]
+  have hpairs : (fun v => (v, (none : Option Bytes))) ∘ (fun d => markK K (expectNVar s.pol s.guids d))
+      = pairOf K s.pol s.guids := by funext d; rfl
+  rw [hpairs]
+  exact compactCore_expect K s hwf hl hfit
 
 theorem compact_expect (K : Bytes → Bool) (s : NvStore) (hwf : WFParts s) (hl : Links s)
-    (hfit : fitsOk s = true) (d : Nat) :
+    (hfit : fitsOk s = true) (hpl : ∀ e ∈ s.entries, e.plain = true) (d : Nat) :
     compact s.pol (d + 1) (invalK K (expectStore s)) = .ok (expectStore (compactG K s)) := by
   simp only [compact]
-  exact compactWith_expect K s hwf hl hfit _
+  exact compactWith_expect K s hwf hl hfit hpl _
 
 end Fiano.Nvram
